@@ -157,6 +157,18 @@ CHECKS = {
          "between fastparquet's reader and the specification is the certified-file comparison (differential), not a refinement proof of "
          "core.py; the kernels' code-shaped models are tied by the C11 correspondence.",
          "Lean 4 proof (specification decoder inverts any conforming encoder) + Lean-certified foreign files vs the real reader", "§6 C03"),
+ "C15": ("Lean 4 theorems: standard record assembly (Spec.Dremel) inverts shredding for every list of rows - null rows, empty collections, "
+         "null elements, element order - and composes over page boundaries placed anywhere, also inside a row. The code-shaped model "
+         "Impl.Assemble of _assemble_objects and of read_col's page chaining (the chaining rule and the MAP key selection are REGENERATED "
+         "from core.py; kernel-decided facts about them are proof obligations) is tied to the compiled kernel by running both on the same "
+         "level/value streams cut into pages at arbitrary positions; the real result must equal Spec.Dremel's (the property). Whole nested "
+         "files from the specification-level writer (LIST and MAP, v1/v2, plain/dictionary, codecs, page cuts incl. inside rows, several "
+         "row groups) are certified by the Lean reader (Spec.File + Spec.Dremel) and then read by to_pandas() in an isolated process. "
+         "A kernel-decided witness shows the model loses a continuation that carries only nulls (known finding). PARTIAL: the refinement "
+         "Impl.Assemble = Spec.Dremel for all streams is established by correspondence and witnesses, not yet by a general theorem.",
+         "Trusted: Lean kernel + standard axioms; Lean compiler for Spec.File; cramjam. Models only one-level LIST / MAP of primitives (the "
+         "property's scope); deeper nesting is outside.",
+         "Lean 4 proof (record assembly inverts shredding, page composition) + kernel correspondence + Lean-certified nested files", "§6 C15"),
  "C01": ("Partial: the oracle (the property itself: names, order, rows, index, every cell, dtype or documented canonical form - or the write "
          "raised) is evaluated on the real code over the option lattice with pairwise/random coverage; the format pipeline is tied to the "
          "Lean specification reader Spec.File, which decodes the very bytes the writer produced (C02) - so a symmetric writer/reader error is "
